@@ -38,8 +38,13 @@ class Cons:
         return "Cons(%s, %s, %s)" % (self.kind, self.lhs, self.rhs)
 
 
+_prob_ids = [0]
+
+
 class Prob:
     def __init__(self):
+        _prob_ids[0] += 1
+        self.opt = z3.Real("optimum!%d" % _prob_ids[0])  # the optimal value of this program as it stands when solve() is called
         self.cons = []
         self.direction = None
         self.objective = None
@@ -79,6 +84,28 @@ def keyrepr(v):
     if isinstance(v, float):
         return "%.12g" % v
     return repr(v)
+
+
+class EntryMat:
+    """a small matrix of concrete shape whose entries are real terms (a table filled entry by entry in Python loops)"""
+
+    def __init__(self, rows):
+        self.rows = [list(r) for r in rows]
+
+    @property
+    def shape(self):
+        return (len(self.rows), len(self.rows[0]) if self.rows else 0)
+
+    def map(self, f):
+        return EntryMat([[f(x) for x in r] for r in self.rows])
+
+    def transpose(self):
+        n, m = self.shape
+        return EntryMat([[self.rows[i][j] for i in range(n)] for j in range(m)])
+
+    def term(self):
+        n, m = self.shape
+        return uf("matrix[%dx%d]" % (n, m), Arr, *[lift(x) for r in self.rows for x in r])
 
 
 class Param:
@@ -253,6 +280,37 @@ class ProgEngine(TermEngine):
                 return self.compare(e.ops[0], a, b)
         if isinstance(e, ast.Attribute) and isinstance(e.value, ast.Name) and e.value.id == "self" and ("self." + e.attr) in env:
             return env["self." + e.attr]
+        if isinstance(e, ast.UnaryOp) and isinstance(e.op, ast.USub):
+            v0 = self.ev(e.operand, env, pc)
+            if isinstance(v0, EntryMat):
+                return v0.map(lambda x: -lift(x) if is_z3(x) else -x)
+            if is_arr(v0):
+                return uf("neg", Arr, v0)
+            return -lift(v0) if is_z3(v0) else -v0
+        if isinstance(e, ast.Attribute) and e.attr in ("shape", "T"):
+            try:
+                b0 = self.ev(e.value, env, pc)
+            except Unsupported:
+                b0 = None
+            if isinstance(b0, EntryMat):
+                return b0.shape if e.attr == "shape" else b0.transpose()
+        if isinstance(e, ast.Call) and isinstance(e.func, ast.Attribute) and e.func.attr in ("conj", "conjugate", "copy") and not e.args:
+            try:
+                b0 = self.ev(e.func.value, env, pc)
+            except Unsupported:
+                b0 = None
+            if isinstance(b0, EntryMat):
+                return b0  # entries are real terms
+        if isinstance(e, ast.Subscript) and isinstance(e.slice, ast.Tuple) and len(e.slice.elts) == 2:
+            try:
+                b0 = self.ev(e.value, env, pc)
+            except Unsupported:
+                b0 = None
+            if isinstance(b0, EntryMat):
+                i, j = [self.ev(x, env, pc) for x in e.slice.elts]
+                if isinstance(i, int) and isinstance(j, int):
+                    return b0.rows[i][j]
+                raise Unsupported("symbolic index into an entry table")
         if isinstance(e, ast.Attribute):
             if isinstance(e.value, ast.Name) and e.value.id == "picos":
                 return ("picos", e.attr)
@@ -265,10 +323,10 @@ class ProgEngine(TermEngine):
                 if e.attr == "value":
                     if base.solved_at is None:
                         raise Unsupported("problem.value before solve")
-                    return OptVal(base)
+                    return base.opt
                 return ("probmethod", base, e.attr)
-            if isinstance(base, OptVal) and e.attr == "value":
-                return base
+            if is_z3(base) and e.attr == "value" and any(base.eq(pr.opt) for pr in self.c.problems):
+                return base  # picos: solution.value
             if isinstance(base, Cons) and e.attr == "dual":
                 return Struct("dual-of-constraint", id(base))
             if is_z3(base) and base.sort() == R and e.attr == "real":
@@ -338,7 +396,24 @@ class ProgEngine(TermEngine):
             return [int(x) for x in v]
         return None
 
+    def assign(self, t, v, env, pc):
+        if isinstance(t, ast.Subscript) and isinstance(t.slice, ast.Tuple) and len(t.slice.elts) == 2:
+            obj = self.ev(t.value, env, pc)
+            if isinstance(obj, EntryMat):
+                i, j = [self.ev(x, env, pc) for x in t.slice.elts]
+                if not (isinstance(i, int) and isinstance(j, int) and is_scalar(v)):
+                    raise Unsupported("store into an entry table")
+                obj.rows[i][j] = v
+                return
+        return super().assign(t, v, env, pc)
+
     def stmt(self, s, env, pc):
+        if isinstance(s, ast.Assign) and len(s.targets) == 1 and isinstance(s.targets[0], ast.Tuple) and isinstance(s.value, ast.Attribute) and s.value.attr == "shape":
+            base = self.ev(s.value.value, env, pc)
+            if is_arr(base) and all(isinstance(t, ast.Name) for t in s.targets[0].elts):
+                for k, t in enumerate(s.targets[0].elts):
+                    env[t.id] = uf("shape[%d]" % k, R, base)
+                return [(env, pc)]
         if isinstance(s, ast.Assign) and len(s.targets) == 1 and isinstance(s.targets[0], ast.Attribute) and isinstance(s.targets[0].value, ast.Name) and s.targets[0].value.id == "self":
             key = "self." + s.targets[0].attr
             node = s.value
@@ -398,6 +473,34 @@ class ProgEngine(TermEngine):
     def call(self, e, env, pc):
         f = e.func
         fname = ast.unparse(f)
+        if fname.startswith("pc."):
+            fname = "picos." + fname[3:]
+        if isinstance(f, ast.Attribute) and f.attr == "append" and isinstance(f.value, ast.Name) and isinstance(env.get(f.value.id), list) and len(e.args) == 1:
+            env[f.value.id].append(self.ev(e.args[0], env, pc))
+            return None
+        if isinstance(f, ast.Attribute) and f.attr == "partial_trace" and not fname.startswith(("picos.", "cvxpy.")):
+            base = self.ev(f.value, env, pc)
+            if is_arr(base) and len(e.args) == 1 and isinstance(self.ev(e.args[0], env, pc), int) and [k.arg for k in e.keywords] == ["dimensions"]:
+                return uf("var.partial_trace[%d](dimensions)" % self.ev(e.args[0], env, pc), Arr, base, lift(self.ev(e.keywords[0].value, env, pc)))
+        if fname == "np.zeros" and len(e.args) == 1 and not e.keywords:
+            shp = self.ev(e.args[0], env, pc)
+            if isinstance(shp, (list, tuple)) and len(shp) == 2 and all(isinstance(x, int) for x in shp):
+                return EntryMat([[0] * shp[1] for _ in range(shp[0])])
+        if fname == "np.negative" and len(e.args) == 1:
+            a0 = self.ev(e.args[0], env, pc)
+            if isinstance(a0, EntryMat):
+                return a0.map(lambda x: -lift(x) if is_z3(x) else -x)
+        if fname in ("picos.block", "cvxpy.bmat") and len(e.args) == 1 and not e.keywords:
+            rows = self.ev(e.args[0], env, pc)
+            if isinstance(rows, list):
+                rows = [[x.term() if isinstance(x, EntryMat) else x for x in r_] if isinstance(r_, list) else r_ for r_ in rows]
+            if isinstance(rows, list) and len(rows) == 2 and all(isinstance(r_, list) and len(r_) == 2 and all(is_arr(x) for x in r_) for r_ in rows):
+                return uf("block2x2", Arr, rows[0][0], rows[0][1], rows[1][0], rows[1][1])
+            raise Unsupported("block matrix form")
+        if fname == "picos.SpectralNorm" and len(e.args) == 1:
+            a0 = self.ev(e.args[0], env, pc)
+            if is_arr(a0):
+                return uf("spectral-norm", R, a0)
         if isinstance(f, ast.Name) and f.id in ("zip", "enumerate"):
             return self._iterable(e, env, pc)
         if isinstance(f, ast.Name) and f.id == "has_same_dimension":
@@ -411,16 +514,23 @@ class ProgEngine(TermEngine):
             kw = self._kw(e, env, pc)
             what = fname[6:]
             if what == "Variable":
-                shape = args[0]
+                shape = args[0] if args else ()
                 shp = list(shape) if isinstance(shape, tuple) else [shape]
                 extra = ",".join("%s=%r" % (k, v) for k, v in sorted(kw.items()))
                 k = self.c.nvars
                 self.c.nvars += 1
                 return uf("cvxpy.Variable#%d[%s]" % (k, extra), Arr, *[lift(x) for x in shp])
             if what in ("Maximize", "Minimize") and len(args) == 1:
-                return ("objective", "max" if what == "Maximize" else "min", args[0])
+                ob = args[0]
+                if is_arr(ob):
+                    ob = uf("scalar-of", R, ob)  # a 0-d variable used as the objective
+                return ("objective", "max" if what == "Maximize" else "min", ob)
             if what == "trace" and len(args) == 1 and is_arr(args[0]):
                 return tr(args[0])
+            if what == "sum" and len(args) == 1 and is_arr(args[0]):
+                return uf("sum-of-entries", R, args[0])
+            if what == "diag" and len(args) == 1 and is_arr(args[0]):
+                return uf("diag", Arr, args[0])
             if what == "real" and len(args) == 1:
                 return uf("real-part", Arr, args[0]) if is_arr(args[0]) else args[0]
             if what == "kron" and len(args) == 2:
@@ -497,7 +607,7 @@ class ProgEngine(TermEngine):
                     prob.solves += 1
                     prob.solved_at = len(prob.cons)
                     prob.solve_kw = kw
-                    return OptVal(prob)  # cvxpy: solve() returns the optimal value; picos: a solution whose .value is read
+                    return prob.opt  # cvxpy: solve() returns the optimal value; picos: a solution whose .value is read
                 if m == "get_constraint" and len(args) == 1 and isinstance(args[0], int):
                     if not 0 <= args[0] < len(prob.cons):
                         raise Unsupported("constraint index out of range")
@@ -582,21 +692,29 @@ class ProgContract:
         except Exception as ex:
             return [("spec could not be built: %s" % ex, False)]
         scalar = bool(want.get("scalar_result"))
+        if len(self.problems) != 1:
+            return [("exactly one program is built", False)]
+        prob = self.problems[0]
+        fval = want.get("value", lambda o: o)
         if scalar:
-            ok_shape = isinstance(value, OptVal)
-            out.append(("the function returns the optimal value of a solved program", bool(ok_shape)))
+            ok_shape = is_scalar(value) and prob.solved_at is not None
+            out.append(("the function returns a number computed from the optimum of a solved program", bool(ok_shape)))
             value = (value, None)
         else:
-            ok_shape = isinstance(value, tuple) and len(value) == 2 and isinstance(value[0], OptVal)
-            out.append(("the function returns (optimal value of a solved program, variables)", bool(ok_shape)))
+            ok_shape = isinstance(value, tuple) and len(value) == 2 and is_scalar(value[0]) and prob.solved_at is not None
+            out.append(("the function returns (value, variables) for a solved program", bool(ok_shape)))
         if not ok_shape:
             return out
-        prob = value[0].prob
+        out.append(("returned value == " + want.get("value_text", "the optimum of the program"), lift(value[0]) == lift(fval(prob.opt))))
         out.append(("exactly one program is built and it is solved exactly once, after its last constraint and objective", len(self.problems) == 1 and prob.solves == 1 and prob.solved_at == len(prob.cons) and self.late_edits == 0 and prob.objective_set == 1))
         kw = prob.solve_kw
         if want.get("solver_param", True):
             solver_ok = isinstance(kw.get("solver"), Param) and kw["solver"].name == "solver"
             out.append(("solve() is called with the caller's solver", bool(solver_ok)))
+        elif "solve_kw" in want:
+            exp_kw = want["solve_kw"]
+            ok_kw = set(kw) == set(exp_kw) and all(keyrepr(kw[k]) == keyrepr(exp_kw[k]) for k in kw)
+            out.append(("solve() is called with %s" % ", ".join(sorted(exp_kw)), bool(ok_kw)))
         else:
             out.append(("solve() is called without arguments (default solver)", not kw))
         out.append(("direction of optimisation is '%s'" % want["direction"], prob.direction == want["direction"]))
